@@ -18,6 +18,7 @@ import LA.Lemmas.CpioStream
 import LA.Lemmas.CpioStreamOdc
 import LA.Lemmas.CpioAccept
 import LA.Lemmas.ArStream
+import LA.Lemmas.PaxParse
 import LA.Props.C10
 namespace LA.C02
 open LA.Codec LA.NumFmt
@@ -275,5 +276,49 @@ example : ([({ path := some [97, 47, 98], size := some 2 }, [[1, 2]]),
             ({ path := some [120, 32, 121], size := some 1 }, [[7]]),
             ({ path := some [100], ftype := .dir }, [])]
     : List (Entry × List (List Nat))).map (fun ec => arAccepted .bsd ec.1) = [true, true, false] := by decide
+
+/-! ### pax extended headers: the record layer -/
+
+/-- **pax records round trip** (`paxRecords_roundtrip`): the body the writer builds with
+`add_pax_attr_binary` for any list of attributes — values of any bytes, newlines, '=' and NULs included;
+keys non-empty, without '=', at most 500 bytes (the reader looks for the '=' in the first 512 bytes of a
+record), records of at most 99999999 bytes — is split by the reader's loop (`header_pax_extension`: decimal
+length up to the blank, key up to the first '=', `length - consumed - 1` value bytes, newline) into exactly
+that list.  The parser model is compared with the real reader by the `paxbody` op of the codec engine. -/
+theorem paxRecords_roundtrip (kvs : List (List Nat × List Nat)) (h : ∀ kv ∈ kvs, LA.Pax.RecordOK kv) :
+    LA.Pax.parseRecords kvs.length (kvs.flatMap fun kv => LA.Pax.record kv.1 kv.2) = some kvs :=
+  LA.Pax.parseRecords_records kvs h
+
+/-- Decimal attribute values (`uid`, `gid`, `size`, the seconds of `mtime` …): what `format_int` writes,
+`tar_atol10` (`pax_attribute_read_number`) reads back. -/
+theorem pax_number_roundtrip (n : Nat) (hn : n < 9223372036854775800) :
+    tarAtol10 (LA.Pax.decDigits n) = (n : Int) := LA.Pax.tarAtol10_decDigits n hn
+
+/-- **The attributes the pax writer emits when a field does not fit ustar** (`decode_encode_pax_partial`):
+for pathname, link target, user and group name (any bytes) and uid, gid, size (decimal), the records
+`path=…`, `linkpath=…`, `uid=…`, `gid=…`, `size=…`, `uname=…`, `gname=…` are split back into exactly these
+key/value pairs by the reader and the three numbers parse back to their values.  (What is not covered
+by a theorem: the decision which attributes are needed, the `mtime`/`atime`/`ctime` "seconds.fraction"
+text form, string conversion to UTF-8, and the ustar header that follows — spec level, checked by the
+engine's round-trip predicate.) -/
+theorem decode_encode_pax_partial (path linkpath uname gname : List Nat) (uid gid size : Nat)
+    (hu : uid < 9223372036854775800) (hg : gid < 9223372036854775800) (hs : size < 9223372036854775800)
+    (hlen : ∀ kv ∈ [([112, 97, 116, 104], path), ([108, 105, 110, 107, 112, 97, 116, 104], linkpath),
+        ([117, 105, 100], LA.Pax.decDigits uid), ([103, 105, 100], LA.Pax.decDigits gid),
+        ([115, 105, 122, 101], LA.Pax.decDigits size), ([117, 110, 97, 109, 101], uname), ([103, 110, 97, 109, 101], gname)],
+      LA.Pax.recordLen kv.1 kv.2 ≤ 99999999) :
+    let attrs := [([112, 97, 116, 104], path), ([108, 105, 110, 107, 112, 97, 116, 104], linkpath),
+        ([117, 105, 100], LA.Pax.decDigits uid), ([103, 105, 100], LA.Pax.decDigits gid),
+        ([115, 105, 122, 101], LA.Pax.decDigits size), ([117, 110, 97, 109, 101], uname), ([103, 110, 97, 109, 101], gname)]
+    LA.Pax.parseRecords attrs.length (attrs.flatMap fun kv => LA.Pax.record kv.1 kv.2) = some attrs ∧
+    tarAtol10 (LA.Pax.decDigits uid) = (uid : Int) ∧ tarAtol10 (LA.Pax.decDigits gid) = (gid : Int) ∧
+    tarAtol10 (LA.Pax.decDigits size) = (size : Int) := by
+  intro attrs
+  refine ⟨paxRecords_roundtrip attrs ?_, pax_number_roundtrip uid hu, pax_number_roundtrip gid hg, pax_number_roundtrip size hs⟩
+  intro kv hkv
+  have hl := hlen kv hkv
+  simp only [attrs, List.mem_cons, List.mem_nil_iff, or_false] at hkv
+  rcases hkv with rfl | rfl | rfl | rfl | rfl | rfl | rfl <;>
+    exact ⟨by simp, by intro c hc; simp at hc; omega, by simp, hl⟩
 
 end LA.C02
